@@ -1137,7 +1137,7 @@ func main() {
 	ngd := r.N(6, 60)
 	vh.Parallel(ngd, 3, func(i int) { gcDisabledTrial(r, bin, i) })
 	r.Require("gc_disabled_trials", int64(ngd/2))
-	nl := r.N(16, 64)
+	nl := r.N(20, 80)
 	vh.Parallel(nl, 8, func(i int) { listenTrial(r, bin, i) })
 	r.Require("listen_trials", int64(nl/2))
 	nco := r.N(8, 40)
